@@ -8,6 +8,7 @@ import (
 	"sort"
 	"strings"
 	"sync/atomic"
+	"time"
 
 	"verif/mc"
 
@@ -331,6 +332,67 @@ func makeBFS(c *cfg, cnt *counters, hooks bool, depth int) *mc.BFS[op] {
 	}
 }
 
+// llong is one fixed long history: the clock abstraction of the BFS (only
+// the order of access stamps matters) says nothing about stamps that wrap,
+// and the heap under the store is never more than three levels deep there.
+type llong struct {
+	Limit  int   `json:"limit"`
+	Keys   int   `json:"keys"`
+	Steps  int64 `json:"steps"`
+	BySize bool  `json:"size_is_value,omitempty"`
+	Hot    bool  `json:"hot_key,omitempty"` // most accesses go to one key (the rest age)
+}
+
+func llongOp(l llong, x *uint64, i int64) op {
+	*x = *x*6364136223846793005 + 1442695040888963407
+	r := int((*x >> 33) % 1000)
+	*x = *x*6364136223846793005 + 1442695040888963407
+	k := int((*x >> 33) % uint64(l.Keys))
+	if l.Hot && r < 900 {
+		return op{K: "get", A: 0}
+	}
+	v := 1
+	if l.BySize {
+		v = 1 + k%3
+	}
+	switch {
+	case r < 450:
+		return op{K: "get", A: k}
+	case r < 800:
+		return op{K: "put", A: k, V: v}
+	case r < 880:
+		return op{K: "has", A: k}
+	case r < 998 || i%50000 != 7:
+		return op{K: "remove", A: k}
+	default:
+		return op{K: "clear"}
+	}
+}
+
+func checkLLong(l llong) *mc.Failure {
+	return mc.GuardTL("lru-long", l, 30*time.Minute, func() *mc.Failure {
+		var local counters
+		vals := []int{1}
+		if l.BySize {
+			vals = []int{1, 2, 3}
+		}
+		s := newInst(&cfg{Limit: l.Limit, Keys: l.Keys, Values: vals, BySize: l.BySize}, &local)
+		x := uint64(l.Limit)*1000003 + uint64(l.Keys)
+		for i := int64(0); i < l.Steps; i++ {
+			o := llongOp(l, &x, i)
+			if f := s.Apply(o, true); f != nil {
+				f.Step = int(min(i, 1<<30))
+				if len(f.Msg) > 500 {
+					f.Msg = f.Msg[:500] + "..."
+				}
+				f.Msg = fmt.Sprintf("long history (limit %d, %d keys, hot=%v), call %d %v: %s", l.Limit, l.Keys, l.Hot, i, o, f.Msg)
+				return f
+			}
+		}
+		return nil
+	})
+}
+
 func main() {
 	var cnt counters
 	mc.Main("C08", mc.Harness{
@@ -401,6 +463,38 @@ func main() {
 			}
 			var local counters
 			return makeBFS(&cf, &local, mc.HooksEnabled, 0).Replay(c)
+		},
+	}, mc.Harness{
+		Name: "lru-long", HangLimit: 30 * time.Minute,
+		Explore: func(r *mc.Run) {
+			var cases []llong
+			steps := mc.Pick(r, int64(70000), int64(1<<22))
+			for _, lk := range [][2]int{{2, 3}, {3, 5}, {8, 12}, {17, 30}, {64, 100}, {300, 400}} {
+				cases = append(cases, llong{Limit: lk[0], Keys: lk[1], Steps: steps}, llong{Limit: lk[0], Keys: lk[1], Steps: steps, Hot: true})
+				cases = append(cases, llong{Limit: 2 * lk[0], Keys: lk[1], Steps: steps / 2, BySize: true})
+			}
+			if !r.Quick() {
+				// beyond 2^31 accesses (a 32-bit clock would wrap)
+				cases = append(cases, llong{Limit: 2, Keys: 3, Steps: 1<<31 + 100000, Hot: true})
+			}
+			var calls int64
+			mc.ParallelFor(len(cases), r.Workers, func(i int) {
+				if f := checkLLong(cases[i]); f != nil {
+					r.Violation(mc.Case{Harness: "lru-long", Trace: mc.J(cases[i]), Msg: f.Msg, Step: f.Step})
+				}
+				atomic.AddInt64(&calls, cases[i].Steps)
+			})
+			n := int64(len(cases))
+			r.AddEval(n, calls, calls, n)
+			r.Rule("fixed long histories (a linear congruential mix of Get/Put/Has/Remove and rare Clear; uniform keys or one hot key) of 70000 / 4M calls (one of 2^31 in the thorough tier) on caches of limit 2...300, unit sizes and size = value, against the reference LRU after every call: return values, eviction callbacks in order, Len, Size, Has of every key")
+			r.Sample(llong{Limit: 8, Keys: 12, Steps: 70000, Hot: true})
+		},
+		Replay: func(c mc.Case) *mc.Failure {
+			var l llong
+			if err := mc.Unmarshal(c.Trace, &l); err != nil {
+				return mc.Failf(-1, "bad trace: %v", err)
+			}
+			return checkLLong(l)
 		},
 	})
 }
